@@ -30,8 +30,9 @@ import (
 // phase 0 server running, call and wait           1 call racing a concurrent Shutdown()
 //       2 call after Shutdown() has completed     3 call, then the leader is deposed (higher term)
 //       4 call, let it settle, then Shutdown()
+//       5 (leader that cannot commit) two more Apply calls in flight, the call, then a user Restore
 // code  0 nil 1 ErrNotLeader 2 ErrLeadershipLost 3 ErrRaftShutdown 4 ErrEnqueueTimeout
-//       5 ErrCantBootstrap 6 ErrLeadershipTransferInProgress 7 ErrNothingNewToSnapshot
+//       5 ErrCantBootstrap 6 ErrLeadershipTransferInProgress 7 ErrNothingNewToSnapshot 9 ErrAbortedByRestore
 //       8 other error 98 THE PROCESS PANICKED 99 NEVER RESOLVED (watchdog)
 //
 // Cells in which a Shutdown or a step-down races the call run in a child process (the harness
@@ -62,6 +63,8 @@ func c17code(err error) uint64 {
 		return 6
 	case errors.Is(err, raft.ErrNothingNewToSnapshot):
 		return 7
+	case errors.Is(err, raft.ErrAbortedByRestore):
+		return 9
 	}
 	return 8
 }
@@ -241,6 +244,22 @@ func c17cell(api, role int, buffered bool, phase int, skew time.Duration) (code 
 	var wait func() error
 	res := make(chan error, 1)
 	switch phase {
+	case 5:
+		// two applies already in flight, then the measured call, then a restore from the user
+		for i := 0; i < 2; i++ {
+			s.bg = append(s.bg, s.r.Apply([]byte{0, 0, 0, 0, 0, 0, 0, byte(40 + i)}, 0))
+		}
+		c17wait(func() bool { return s.r.LastIndex() >= 5 }, 500*time.Millisecond)
+		li0 := s.r.LastIndex() - 2
+		wait = c17call(s, api)
+		go func() { res <- wait() }()
+		// all three are dispatched (in flight) before the restore is asked for
+		c17wait(func() bool { return s.r.LastIndex() >= li0+3 }, 500*time.Millisecond)
+		go func() {
+			body := encState([]uint64{5})
+			meta := &raft.SnapshotMeta{Version: 1, ID: "u", Index: 1, Term: 1, Size: int64(len(body))}
+			s.r.Restore(meta, bytes.NewReader(body), 100*time.Millisecond)
+		}()
 	case 0, 3, 4:
 		wait = c17call(s, api)
 		go func() { res <- wait() }()
@@ -287,7 +306,7 @@ func c17cell(api, role int, buffered bool, phase int, skew time.Duration) (code 
 	case <-time.After(c17Watchdog):
 		return 99, nil
 	}
-	if phase == 4 || phase == 1 {
+	if phase == 4 || phase == 1 || phase == 5 {
 		// the applies that were queued for the FSM before the call must resolve as well
 		if phase == 1 {
 			s.openGate()
@@ -307,7 +326,7 @@ func c17cell(api, role int, buffered bool, phase int, skew time.Duration) (code 
 
 var c17apiName = map[int]string{1: "apply", 2: "barrier", 3: "verifyleader", 4: "addvoter", 5: "bootstrap", 6: "snapshot", 7: "restore", 8: "leadershiptransfer", 9: "getconfiguration", 10: "apply-with-timeout"}
 var c17roleName = map[int]string{1: "follower", 2: "candidate", 3: "leader", 4: "leader-without-quorum", 5: "leader-with-blocked-fsm"}
-var c17phaseName = map[int]string{0: "running", 1: "racing-shutdown", 2: "after-shutdown", 3: "deposed-after-call", 4: "shutdown-after-call"}
+var c17phaseName = map[int]string{0: "running", 1: "racing-shutdown", 2: "after-shutdown", 3: "deposed-after-call", 4: "shutdown-after-call", 5: "restore-after-call"}
 
 // c17isolated runs one cell in a child process: prints the code; a crash is code 98
 func c17isolated(api, role int, buffered bool, phase int, skew time.Duration) (uint64, error, string) {
@@ -353,7 +372,7 @@ func c17child(args []string) {
 }
 
 func c17run(api, role int, buffered bool, phase int, skew time.Duration) (uint64, error, string) {
-	if phase == 1 || phase == 3 || phase == 4 {
+	if phase == 1 || phase == 3 || phase == 4 || phase == 5 {
 		return c17isolated(api, role, buffered, phase, skew)
 	}
 	c, err := c17cell(api, role, buffered, phase, skew)
@@ -378,6 +397,9 @@ func c17report(cw *caseWriter, tag string, in []uint64, code uint64, detail stri
 }
 
 func c17valid(api, role, phase int) bool {
+	if phase == 5 {
+		return role == 4 && (api == 1 || api == 2 || api == 10)
+	}
 	if phase == 3 && role < 3 {
 		return false
 	}
@@ -424,7 +446,7 @@ func runC17(cw *caseWriter, tier string, seed uint64) {
 	for rep := 0; rep < reps; rep++ {
 		for api := 1; api <= 10; api++ {
 			for role := 1; role <= 5; role++ {
-				for phase := 0; phase <= 4; phase++ {
+				for phase := 0; phase <= 5; phase++ {
 					if !c17valid(api, role, phase) {
 						continue
 					}
